@@ -131,3 +131,52 @@ Definition cp_limit_ok (pos mn mx : Q) (c : Q) : bool :=
   if Qltb c pos then Qleb c mn
   else if Qltb pos c then Qleb mx c
   else Qeqb mn pos && Qeqb mx pos.
+
+(* ------------------------------------------------------------------ which route segments a pass collects
+   (buildOrthogonalNudgingSegments, orthogonal.cpp:2075-2288; seeded change C10-6, DESIGN 9.13)
+   For EVERY orthogonal connector of the router - connectors with a user-specified fixed route (ConnRef::setFixedRoute)
+   included: "the path of this connector will still be considered for the purpose of nudging", connector.h - and every
+   i in [1, size): if ps[i-1][dim] == ps[i][dim] and the segment has positive length, exactly one NudgingShiftSegment
+   with indexes (indexLow, indexHigh) ordered by the other coordinate is pushed, whichever branch (checkpoint / first or
+   last segment / fixed route / shiftable middle segment) builds it.  `dim` = false: x is the shift dimension.
+   Precondition of the code (not modelled): segmentPenalty != 0. *)
+Definition coord (dim : bool) (p : pt) : Q := if dim then py p else px p.
+
+Record member := mkmem {
+  m_lowi : nat; m_highi : nat;   (* indexes into the display route, low end first *)
+  m_pos : Q;                     (* position in the shift dimension *)
+  m_lo : Q; m_hi : Q             (* extent in the other dimension *)
+}.
+
+Fixpoint route_members_from (dim : bool) (k : nat) (l : list pt) : list member :=
+  match l with
+  | a :: ((b :: _) as t) =>
+      let rest := route_members_from dim (S k) t in
+      if Qeqb (coord dim a) (coord dim b) then
+        if Qeqb (coord (negb dim) a) (coord (negb dim) b) then rest                      (* zero length: ignored *)
+        else if Qltb (coord (negb dim) b) (coord (negb dim) a)
+             then mkmem (S k) k (coord dim b) (coord (negb dim) b) (coord (negb dim) a) :: rest
+             else mkmem k (S k) (coord dim a) (coord (negb dim) a) (coord (negb dim) b) :: rest
+      else rest
+  | _ => []
+  end.
+Definition route_members (dim : bool) (l : list pt) : list member := route_members_from dim 0 l.
+
+(* all connectors of a pass: (connector id, display route) as hook H1b's AROUTE records give them *)
+Definition pass_members (dim : bool) (routes : list (Z * list pt)) : list (Z * member) :=
+  flat_map (fun cr => map (fun m => (fst cr, m)) (route_members dim (snd cr))) routes.
+
+Definition nat_list_eqb (a b : list nat) : bool :=
+  Nat.eqb (length a) (length b) && forallb (fun xy => Nat.eqb (fst xy) (snd xy)) (combine a b).
+
+(* a dumped segment (ASEG record: the seg fields + its `indexes`) is the segment the model expects *)
+Definition mem_matches (c : Z) (m : member) (x : seg * list nat) : bool :=
+  Z.eqb (sconn (fst x)) c && nat_list_eqb (snd x) [m_lowi m; m_highi m] &&
+  Qeqb (spos (fst x)) (m_pos m) && Qeqb (slo (fst x)) (m_lo m) && Qeqb (shi (fst x)) (m_hi m).
+
+(* completeness of the dumped segment list of one pass: every expected member is there ... *)
+Definition members_covered (dim : bool) (routes : list (Z * list pt)) (segs : list (seg * list nat)) : bool :=
+  forallb (fun cm => existsb (mem_matches (fst cm) (snd cm)) segs) (pass_members dim routes).
+(* ... and nothing else is *)
+Definition members_only (dim : bool) (routes : list (Z * list pt)) (segs : list (seg * list nat)) : bool :=
+  forallb (fun x => existsb (fun cm => mem_matches (fst cm) (snd cm) x) (pass_members dim routes)) segs.
